@@ -277,6 +277,7 @@ def install(E, inline_types=(), target=None, adversarial=False):
             raise PathAbort("panic", "range end index out of range for slice")
         sl = VOpaque("slice", [], z3.FreshConst(E_.U, "slice"))
         E_.pc.append(z3.Function("container_len", E_.U, z3.IntSort())(sl.t) == end.t)
+        E_.trace.append(("prefix_slice", E_.as_u(v), end.t, sl.t))
         return VRef(Cell(sl, "slice"))
     E.extra_intrinsics[r"^<(std::vec::Vec<u8>|\[u8\]) as (std::ops::)?Index<(std::ops::)?RangeTo<usize>>>::index$"] = bytes_index
 
@@ -299,6 +300,7 @@ def install(E, inline_types=(), target=None, adversarial=False):
             return NotImplemented
         sl = VOpaque("slice", [], z3.FreshConst(E_.U, "remainder"))
         E_.pc.append(z3.Function("container_len", E_.U, z3.IntSort())(sl.t) == len(d.tokens) - d.pos)
+        E_.trace.append(("fill_buf", d.pos, sl.t))
         return ok(VRef(Cell(sl, "remainder")))
     E.extra_intrinsics[r"^<\w+ as (std::io::)?BufRead>::fill_buf$"] = fill_buf
     E.extra_intrinsics[r"^std::slice::<impl \[u8\]>::to_vec$"] = lambda E_, c, args: clone(deref(E_, args[0])) if isinstance(deref(E_, args[0]), VOpaque) else NotImplemented
